@@ -439,6 +439,9 @@ func c18Probes() []*pgen.Case {
 		mk("enum_ignore", "// goverter:converter\n// goverter:enum:unknown @ignore\ntype Converter interface {\n\t// goverter:enum:map A1 B1\n\tA(source KA) KB\n}\n"),
 		// enum with key
 		mk("enum_key", "// goverter:converter\n// goverter:enum:unknown B1\ntype Converter interface {\n\t// goverter:enum:map A1 B1\n\tA(source KA) KB\n}\n"),
+		// enums at every container position (map key included) with actions that need no import
+		mk("enum_positions_ignore", "type HA struct{ K map[KA]string; V map[string]KA; B map[KA]KA; L []KA; P *KA; A [2]KA; N map[KA][]KA }\ntype HB struct{ K map[KB]string; V map[string]KB; B map[KB]KB; L []KB; P *KB; A []KB; N map[KB][]KB }\n\n// goverter:converter\n// goverter:enum:unknown @ignore\ntype Converter interface {\n\t// goverter:enum:map A1 B1\n\tA(source KA) KB\n\tH(source HA) HB\n\tM(source map[KA]int) map[KB]int\n}\n"),
+		mk("enum_positions_key", "type HA struct{ K map[KA]string; B map[KA]KA; N map[KA]map[KA]bool }\ntype HB struct{ K map[KB]string; B map[KB]KB; N map[KB]map[KB]bool }\n\n// goverter:converter\n// goverter:enum:unknown B1\ntype Converter interface {\n\t// goverter:enum:map A1 B1\n\tA(source KA) KB\n\tH(source HA) HB\n\t// goverter:update target\n\tU(source HA, target *HB)\n}\n"),
 		// unsafe.Pointer inside the user's struct: a plain assignment needs no import of unsafe
 		mkUnsafe(),
 		// fallible extend without any wrapping
